@@ -64,6 +64,7 @@ type PathState struct {
 	pending     []WorkItem
 	events      []Event
 	failures    []Failure
+	unconditionalKnown int
 	trace       []TraceEntry
 	nvars       int
 	status      string
